@@ -206,7 +206,10 @@ def check_cfgs(rep: Report, cfgs: List[Dict[str, Any]], modes: List[str], rng: r
                 skipped_fx += 1
                 continue
             events += evm
-            tol = CLOSE[dt] if cfg["op"] != "rms_norm" or dt != "f64" else 1e-6
+            # aot_eager / leaf tracer / fx run the SAME ATen kernels as eager: float64 must agree at float64 rounding for every
+            # op.  Only Inductor re-generates the kernels, so only there the float32 statistic inside U.rms_norm
+            # (core.functional.rms, float32 by design) may round differently.
+            tol = 1e-6 if (cfg["op"] == "rms_norm" and dt == "f64" and mode == "inductor") else CLOSE[dt]
             if not close(c_out, e_out, tol):
                 rep.violation(f"{cfg['op']} ({dt}): forward under {mode} differs from eager beyond {tol:g}; cfg={cfg}", {"cfg": cfg, "mode": mode, "what": "forward"}, key=f"forward:{mode}:{dt}")
             elif back and e_grads is not None and c_grads is not None:
@@ -243,10 +246,13 @@ def check_composition(rep: Report, case_seed: int, modes: List[str]) -> None:
     # float32 is from eager float64 on the same data, in units of float32 epsilon; a compiled run in dtype D may be
     # 64 x amplification x eps(D) away from eager (never less than the flat tolerance used for single ops)
     amp = max([rel_dist(y32, y64)] + [rel_dist(a, b) for a, b in zip(g32, g64)]) / 2.0 ** -23
-    f32_inside = dt0 == torch.float32 or "rms" in label   # U.rms_norm computes its statistic in float32 by design (core.functional.rms), whatever the input dtype
-    base = 1e-6 if (f32_inside and dt0 == torch.float64) else (1e-11 if dt0 == torch.float64 else 5e-5)
-    tol = max(base, 64.0 * amp * (2.0 ** -23 if f32_inside else 2.0 ** -52))
     for mode in modes:
+        # U.rms_norm computes its statistic in float32 by design (core.functional.rms), whatever the input dtype: under
+        # Inductor (re-generated kernels) a float64 composition containing it agrees only at float32 rounding; aot_eager
+        # runs the same ATen kernels as eager and must agree at the dtype's own rounding
+        f32_inside = dt0 == torch.float32 or ("rms" in label and mode == "inductor")
+        base = 1e-6 if (f32_inside and dt0 == torch.float64) else (1e-11 if dt0 == torch.float64 else 5e-5)
+        tol = max(base, 64.0 * amp * (2.0 ** -23 if f32_inside else 2.0 ** -52))
         try:
             yc, gc = run_mode(mode, dt0)
         except Exception as ex:
